@@ -381,4 +381,262 @@ theorem step_release {c : Cfg} (hc : c.Fixed) {s : State} (h : SInv s) (k : Nat)
   · have : (step c s (.release k)).1 = s := by simp only [step, if_neg hl]
     rw [this]; exact ⟨h, ReleaseRel.refl k s⟩
 
+/-! ### slice and write on a pool reservation -/
+
+theorem sliceBytes_ok {size off : Nat} {cnt : Int} {b : Nat} (h : sliceBytes size off cnt = .ok b) :
+    off + b ≤ size := by
+  unfold sliceBytes at h
+  simp only [] at h
+  by_cases h1 : (if cnt = -1 then (size : Int) - off else cnt) < 0
+  · rw [if_pos h1] at h; cases h
+  · rw [if_neg h1] at h
+    by_cases h2 : ¬ ((off : Int) + cnt ≤ size)
+    · rw [if_pos h2] at h; cases h
+    · rw [if_neg h2] at h
+      injection h with hb
+      rw [← hb]
+      by_cases h3 : cnt = -1
+      · rw [if_pos h3] at h1 ⊢; omega
+      · rw [if_neg h3] at h1 ⊢; omega
+
+theorem pool_slice_step {c : Cfg} (hc : c.Fixed) {s : State} (h : SInv s) {i k off bytes : Nat} {p : Pool} {r : Resv}
+    (hp : s.pool i = some p) (hr : r ∈ p.resv) (hk : k < NSLOT) (hlive : s.slotLive k = false)
+    (hfit : off + bytes ≤ r.size) :
+    p.slice c k r.fam (r.off + off) bytes = .ok (p.addRef c ⟨k, r.off + off, bytes, r.fam⟩) ∧
+    SInv (s.setPool i (some (p.addRef c ⟨k, r.off + off, bytes, r.fam⟩))) ∧
+    Preserves s (s.setPool i (some (p.addRef c ⟨k, r.off + off, bytes, r.fam⟩))) := by
+  have hok := h.pools i p hp
+  have hbuf : p.hasBuf = true := by
+    rcases hok.inv.hasBuf with hb | hb
+    · exact hb
+    · rw [hb.1] at hr; simp at hr
+  have hfresh := (slotLive_false hlive).1 i p hp
+  have hb : rup p.align (r.off + off + bytes) ≤ p.size :=
+    Nat.le_trans (rup_mono p.align (by omega)) (hok.inv.bounded r hr)
+  have hd : ∀ x ∈ p.resv, x.fam ≠ (⟨k, r.off + off, bytes, r.fam⟩ : Resv).fam →
+      NoShare x ⟨k, r.off + off, bytes, r.fam⟩ := by
+    intro x hx hne a ha b hb' e
+    exact hok.inv.famDisj x hx r hr hne a ha (off + b) (by simp only [] at hb'; omega) (by simp only [] at e; omega)
+  have hinv := addRef_inv hc.2.2.1 hok.inv ⟨k, r.off + off, bytes, r.fam⟩ hfresh hb hbuf hd
+  have hsame := addRef_sameContents (c := c) (p := p) ⟨k, r.off + off, bytes, r.fam⟩ hfresh
+  have hok1 : PoolOK s.nextFam (p.addRef c ⟨k, r.off + off, bytes, r.fam⟩) := by
+    refine ⟨hinv, ?_, ?_⟩
+    · intro x hx
+      rcases (mem_insertResv _ x _).1 hx with e | hx
+      · rw [e]; exact hok.fams r hr
+      · exact hok.fams x hx
+    · intro x hx
+      rcases (mem_insertResv _ x _).1 hx with e | hx
+      · rw [e]; exact hk
+      · exact hok.slots x hx
+  refine ⟨by unfold Pool.slice; rw [if_neg (by simp [hbuf])], ?_⟩
+  rcases pool_index hp with rfl | rfl
+  · exact pool_step h hp (Nat.le_refl _) hok1 (devStep_same h.dev rfl) hsame rfl (by other_pools) rfl rfl
+  · exact pool_step h hp (Nat.le_refl _) hok1 (devStep_same h.dev rfl) hsame rfl (by other_pools) rfl rfl
+
+theorem pool_write_step {s : State} (h : SInv s) {i off : Nat} {data : List Byte} {p : Pool} {r : Resv}
+    (hp : s.pool i = some p) (hr : r ∈ p.resv) (hfit : off + data.length ≤ r.size) :
+    SInv (s.setPool i (some (p.write (r.off + off) data))) := by
+  have hok := h.pools i p hp
+  have hrb := hok.inv.inBounds hr
+  have hinv := write_inv hok.inv (r.off + off) data (by omega)
+  have hok1 : PoolOK s.nextFam (p.write (r.off + off) data) := ⟨hinv, hok.fams, hok.slots⟩
+  rcases pool_index hp with rfl | rfl
+  · exact sinv_update_pool h hp (Nat.le_refl _) hok1 (devStep_same h.dev rfl) rfl (by other_pools) rfl rfl
+  · exact sinv_update_pool h hp (Nat.le_refl _) hok1 (devStep_same h.dev rfl) rfl (by other_pools) rfl rfl
+
+/-! ### device memory -/
+
+theorem setBufData_ids (i : Nat) (f : List Byte → List Byte) (l : List DBuf) :
+    (setBufData i f l).map (·.id) = l.map (·.id) := by
+  induction l with
+  | nil => rfl
+  | cons x xs ih =>
+    unfold setBufData
+    split
+    · simp
+    · simp [ih]
+
+theorem mem_setBufData_id {i : Nat} {f : List Byte → List Byte} {l : List DBuf} {b : DBuf}
+    (hb : b ∈ setBufData i f l) : ∃ b0 ∈ l, b0.id = b.id := by
+  have hm : b.id ∈ (setBufData i f l).map (·.id) := List.mem_map.2 ⟨b, hb, rfl⟩
+  rw [setBufData_ids] at hm
+  obtain ⟨b0, hb0, he⟩ := List.mem_map.1 hm
+  exact ⟨b0, hb0, he⟩
+
+theorem newBuf_inv {s : State} (h : SInv s) {k : Nat} (hk : k < NSLOT) (hfree : findMem k s.mems = none)
+    (n : Nat) (counted : Bool) (data : List Byte) : SInv (s.newBuf k n counted data) := by
+  unfold State.newBuf
+  refine sinv_update_dev h (Nat.le_succ _) (fun j => by rcases j with _ | _ | j <;> rfl) ?_ ?_ ?_ ?_ ?_ ?_ ?_
+  · show DevOK (if counted = true then s.dev.add n else s.dev)
+    split
+    · exact h.dev.add _
+    · exact h.dev
+  · show (if counted = true then s.dev.add n else s.dev).alloc + countedBytes s.bufs =
+      s.dev.alloc + countedBytes (s.bufs ++ [DBuf.mk s.nextFam n counted data])
+    rw [countedBytes_append]
+    cases counted <;> simp [countedBytes] <;> omega
+  · show ((s.bufs ++ [DBuf.mk s.nextFam n counted data]).map (·.id)).Nodup
+    rw [List.map_append, List.nodup_append]
+    refine ⟨h.bufIds, by simp, ?_⟩
+    intro a ha b hb e
+    simp at hb
+    obtain ⟨x, hx, rfl⟩ := List.mem_map.1 ha
+    have := h.bufBelow x hx
+    omega
+  · intro b hb
+    show b.id < s.nextFam + 1
+    rcases List.mem_append.1 hb with hb | hb
+    · exact Nat.lt_succ_of_lt (h.bufBelow b hb)
+    · simp at hb; rw [hb]; exact Nat.lt_succ_self _
+  · intro b hb
+    show ∃ m ∈ s.mems ++ [DMem.mk k s.nextFam 0 n], m.buf = b.id
+    rcases List.mem_append.1 hb with hb | hb
+    · obtain ⟨m, hm, e⟩ := h.bufLive b hb
+      exact ⟨m, List.mem_append_left _ hm, e⟩
+    · simp at hb; rw [hb]
+      exact ⟨⟨k, s.nextFam, 0, n⟩, by simp, rfl⟩
+  · show ((s.mems ++ [DMem.mk k s.nextFam 0 n]).map (·.slot)).Nodup
+    rw [List.map_append, List.nodup_append]
+    refine ⟨h.memSlots, by simp, ?_⟩
+    intro a ha b hb e
+    simp at hb
+    obtain ⟨x, hx, rfl⟩ := List.mem_map.1 ha
+    exact findMem_none hfree x hx (by omega)
+  · intro m hm
+    rcases List.mem_append.1 hm with hm | hm
+    · exact h.memBelow m hm
+    · simp at hm; rw [hm]; exact hk
+
+theorem newBuf_pools (s : State) (k n : Nat) (counted : Bool) (data : List Byte) (j : Nat) :
+    (s.newBuf k n counted data).pool j = s.pool j := by
+  rcases j with _ | _ | j <;> rfl
+
+theorem dev_slice_inv {s : State} (h : SInv s) {k : Nat} (hk : k < NSLOT) (hfree : findMem k s.mems = none)
+    {m : DMem} (hm : m ∈ s.mems) (off bytes : Nat) :
+    SInv { s with mems := s.mems ++ [⟨k, m.buf, off, bytes⟩] } := by
+  refine sinv_update_dev h (Nat.le_refl _) (fun j => by rcases j with _ | _ | j <;> rfl) h.dev rfl h.bufIds h.bufBelow ?_ ?_ ?_
+  · intro b hb
+    obtain ⟨x, hx, e⟩ := h.bufLive b hb
+    exact ⟨x, List.mem_append_left _ hx, e⟩
+  · show ((s.mems ++ [DMem.mk k m.buf off bytes]).map (·.slot)).Nodup
+    rw [List.map_append, List.nodup_append]
+    refine ⟨h.memSlots, by simp, ?_⟩
+    intro a ha b hb e
+    simp at hb
+    obtain ⟨x, hx, rfl⟩ := List.mem_map.1 ha
+    exact findMem_none hfree x hx (by omega)
+  · intro x hx
+    rcases List.mem_append.1 hx with hx | hx
+    · exact h.memBelow x hx
+    · simp at hx; rw [hx]; exact hk
+
+theorem dev_write_inv {s : State} (h : SInv s) (i : Nat) (f : List Byte → List Byte) :
+    SInv { s with bufs := setBufData i f s.bufs } := by
+  have hmap := setBufData_map i f s.bufs
+  have hid := setBufData_ids i f s.bufs
+  refine sinv_update_dev h (Nat.le_refl _) (fun j => by rcases j with _ | _ | j <;> rfl) h.dev ?_ ?_ ?_ ?_ h.memSlots h.memBelow
+  · show s.dev.alloc + countedBytes s.bufs = s.dev.alloc + countedBytes (setBufData i f s.bufs)
+    rw [countedBytes_eq_of_map hmap]
+  · show ((setBufData i f s.bufs).map (·.id)).Nodup
+    rw [hid]; exact h.bufIds
+  · intro b hb
+    obtain ⟨b0, hb0, e⟩ := mem_setBufData_id hb
+    show b.id < s.nextFam
+    rw [← e]; exact h.bufBelow b0 hb0
+  · intro b hb
+    obtain ⟨b0, hb0, e⟩ := mem_setBufData_id hb
+    obtain ⟨m, hm, e'⟩ := h.bufLive b0 hb0
+    exact ⟨m, hm, by rw [e', e]⟩
+
+/-! ### creating and freeing pools, resetting the device -/
+
+theorem add_pool_inv {c : Cfg} (hc : c.Fixed) {s : State} (h : SInv s) {i : Nat} (hi : i < 2) (hn : s.pool i = none) :
+    SInv (s.setPool i (some { align := c.defaultAlign })) := by
+  have hnew : PoolOK s.nextFam { align := c.defaultAlign } := ⟨pinv_new hc.2.2.2.2.2.2, by simp, by simp⟩
+  have hacc := h.account
+  rcases i with _ | _ | i
+  · refine ⟨?_, h.dev, ?_, h.bufIds, h.bufBelow, h.bufLive, h.memSlots, h.memBelow⟩
+    · intro j q hq
+      rcases j with _ | _ | j
+      · have : q = { align := c.defaultAlign } := by
+          have : (some { align := c.defaultAlign } : Option Pool) = some q := hq
+          cases this; rfl
+        rw [this]; exact hnew
+      · exact h.pools 1 q hq
+      · cases hq
+    · show s.dev.alloc = countedBytes s.bufs + poolSize (some { align := c.defaultAlign }) + poolSize (s.pool 1)
+      rw [hn] at hacc
+      simp only [poolSize] at hacc ⊢
+      omega
+  · refine ⟨?_, h.dev, ?_, h.bufIds, h.bufBelow, h.bufLive, h.memSlots, h.memBelow⟩
+    · intro j q hq
+      rcases j with _ | _ | j
+      · exact h.pools 0 q hq
+      · have : q = { align := c.defaultAlign } := by
+          have : (some { align := c.defaultAlign } : Option Pool) = some q := hq
+          cases this; rfl
+        rw [this]; exact hnew
+      · cases hq
+    · show s.dev.alloc = countedBytes s.bufs + poolSize (s.pool 0) + poolSize (some { align := c.defaultAlign })
+      rw [hn] at hacc
+      simp only [poolSize] at hacc ⊢
+      omega
+  · omega
+
+theorem freePool_inv {s : State} (h : SInv s) (i : Nat) : SInv (s.freePool i) := by
+  unfold State.freePool
+  cases hp : s.pool i with
+  | none => exact h
+  | some p =>
+    simp only []
+    have hok := h.pools i p hp
+    have hacc := h.account
+    have hdev : DevOK (p.free s.dev) ∧ (p.free s.dev).alloc + p.size = s.dev.alloc := by
+      unfold Pool.free
+      split
+      · refine ⟨h.dev.sub _, ?_⟩
+        have := h.pool_le hp
+        show s.dev.alloc - p.size + p.size = s.dev.alloc
+        omega
+      · rename_i hb
+        have : p.size = 0 := by
+          rcases hok.inv.hasBuf with hb' | hb'
+          · exact absurd hb' hb
+          · exact hb'.2
+        exact ⟨h.dev, by omega⟩
+    rcases pool_index hp with rfl | rfl
+    · refine ⟨?_, hdev.1, ?_, h.bufIds, h.bufBelow, h.bufLive, h.memSlots, h.memBelow⟩
+      · intro j q hq
+        rcases j with _ | _ | j
+        · cases hq
+        · exact h.pools 1 q hq
+        · cases hq
+      · show (p.free s.dev).alloc = countedBytes s.bufs + poolSize none + poolSize (s.pool 1)
+        rw [hp] at hacc
+        simp only [poolSize] at hacc ⊢
+        omega
+    · refine ⟨?_, hdev.1, ?_, h.bufIds, h.bufBelow, h.bufLive, h.memSlots, h.memBelow⟩
+      · intro j q hq
+        rcases j with _ | _ | j
+        · exact h.pools 0 q hq
+        · cases hq
+        · cases hq
+      · show (p.free s.dev).alloc = countedBytes s.bufs + poolSize (s.pool 0) + poolSize none
+        rw [hp] at hacc
+        simp only [poolSize] at hacc ⊢
+        omega
+
+theorem releaseAllFrom_inv {c : Cfg} (hc : c.Fixed) : ∀ (n : Nat) (s : State), SInv s → SInv (releaseAllFrom c s n) := by
+  intro n
+  induction n with
+  | zero => intro s h; exact h
+  | succ n ih =>
+    intro s h
+    unfold releaseAllFrom
+    apply ih
+    split
+    · exact (release_inv hc h _).1
+    · exact h
+
 end Occa.Pool
